@@ -86,6 +86,7 @@ CmdSpec ParseCmd(const string& line) {
     else if (k == "copy") c.copy = v != "0";
     else if (k == "depall") c.depall = v != "0";
     else if (k == "dall") c.dall = v != "0";
+    else if (k == "dmp") c.dmp = v != "0";
     else if (k == "po") {
       string t = Unhex(v);
       size_t a = 0;
@@ -158,6 +159,7 @@ string DepfileText(const CmdSpec& s) {
   if (s.depall) for (const string& r : s.reads) d += " " + DepfileEscape(s.Spelled(r));
   for (const string& h : s.hidden) d += " " + DepfileEscape(s.Spelled(h));
   d += "\n";
+  if (s.dmp) for (const string& h : s.hidden) d += DepfileEscape(h) + ":\n";
   return d;
 }
 
